@@ -80,6 +80,21 @@ def names_of(fn, nid, depth=0):
             return {('table', on.get('qname', on['name']))}
     if k == 'var' and n.get('vk') in ('global', 'static'):
         return {('const', n.get('qname', n['name']))}
+    if k == 'var' and n.get('vk') == 'local' and depth < 4:
+        # a local that is only ever assigned (QString tag; if (...) tag = "a"; else tag = "b";): the names it was assigned
+        from .effects import classify_use
+        ds = fn.all_defs(n.get('decl'))
+        other_writes = False
+        for j, m in enumerate(fn.nodes):
+            if m['k'] == 'var' and m.get('decl') == n.get('decl'):
+                kind, how = classify_use(fn, j)
+                if kind in ('write', 'addr') and not how.startswith(('assign =', 'operator=', 'decl')) and how.split(' ')[0] not in ('operator=', '='):
+                    other_writes = True
+        if ds and not other_writes:
+            out = set()
+            for d in ds:
+                out |= names_of(fn, d, depth + 1)
+            return out
     return {('dyn', fn.fmt(nid)[:60])}
 
 
